@@ -49,15 +49,15 @@ def _random_chunk(args):
     return out
 
 
-def generate(ctx, cfg, kind, simulate=None, depth=None, limit=None, base=0):
-    """TLC prints every complete behaviour (in -simulate mode: every successor it generates); `limit` of them are
-    drawn uniformly with the seeded rng (reservoir sampling over the spool) and executed."""
+def gen_tlc(seed, cfg, kind, simulate=None, depth=None, limit=None):
+    """TLC part of a generator (no ctx: may run in a thread). TLC prints every complete behaviour (in -simulate
+    mode: every successor it generates); `limit` of them are drawn uniformly with the seeded rng (reservoir
+    sampling over the spool). Returns (TLCResult, total printed, picked behaviours)."""
     wd = tlc.workdir("%sgen_%s" % (MOD, kind))
     spool = os.path.join(wd, "beh.spool")
-    res = tlc.run(SPEC, cfg, simulate=simulate, depth=depth, seed=ctx.seed if simulate else None,
+    res = tlc.run(SPEC, cfg, simulate=simulate, depth=depth, seed=seed if simulate else None,
                   spool=spool, tag=MOD + kind, timeout=3000, workers=2)
-    ctx.add_tlc(res, "G:" + cfg)
-    rng = random.Random(ctx.seed * 31 + len(kind))
+    rng = random.Random(seed * 31 + len(kind))
     picked, total = [], 0
     with open(spool, "rb") as f:
         for bl in f:
@@ -74,6 +74,12 @@ def generate(ctx, cfg, kind, simulate=None, depth=None, limit=None, base=0):
     behs = [json.loads(json.loads(bl.decode("utf-8"))) for bl in picked]
     if not behs:
         raise tlc.MachineryError("generator %s produced no behaviour" % cfg)
+    return res, total, behs
+
+
+def replay_generated(ctx, cfg, kind, gen, base=0):
+    res, total, behs = gen
+    ctx.add_tlc(res, "G:" + cfg)
     ctx.count("behaviours_generated_" + kind, total)
     n = max(1, min(tlc.NCPU, len(behs)))
     jobs = [(behs[i::n], ctx.seed, base + i * 100000) for i in range(n)]
@@ -85,6 +91,17 @@ def generate(ctx, cfg, kind, simulate=None, depth=None, limit=None, base=0):
         t["src"] = kind
     ctx.count("behaviours_" + kind, len(traces))
     return traces
+
+
+def generate(ctx, cfg, kind, simulate=None, depth=None, limit=None, base=0):
+    return replay_generated(ctx, cfg, kind, gen_tlc(ctx.seed, cfg, kind, simulate, depth, limit), base)
+
+
+def parallel(thunks):
+    """run independent TLC jobs (each a no-argument callable) in threads; returns their results in order"""
+    with mp.pool.ThreadPool(max(1, len(thunks))) as tp:
+        hs = [tp.apply_async(t) for t in thunks]
+        return [h.get() for h in hs]
 
 
 def drive(ctx, n, kind="random"):
